@@ -102,6 +102,7 @@ var flowRules = map[string]flowFn{
 	"grammar-ignores-trivia": func(f *yyflow.Lang, sh map[string]*yyflow.Shape) *report.RuleResult { return f.IgnoresTrivia() },
 	"report-positions":  func(f *yyflow.Lang, sh map[string]*yyflow.Shape) *report.RuleResult { return f.ReportPositions(sh) },
 	"pos-distinct":      func(f *yyflow.Lang, sh map[string]*yyflow.Shape) *report.RuleResult { return f.PosDistinct(sh) },
+	"int-parse-decimal": func(f *yyflow.Lang, sh map[string]*yyflow.Shape) *report.RuleResult { return f.IntParseDecimal() },
 	"assert-safe":       func(f *yyflow.Lang, sh map[string]*yyflow.Shape) *report.RuleResult { return f.AssertSafe(sh) },
 }
 
